@@ -40,6 +40,8 @@ type muxOp struct {
 	Tables *bool           `json:"tables"`
 	Data   json.RawMessage `json:"data"`
 	Packet json.RawMessage `json:"packet"`
+	// Reuse: pass the adaptation field OBJECT of the previous data op (as the muxer left it) instead of a fresh one
+	Reuse bool `json:"reuse"`
 }
 
 func init() {
@@ -58,6 +60,7 @@ func init() {
 		var outs []string
 		last := ""
 		payloadOK := true
+		var lastAF *astits.PacketAdaptationField
 		for oi, op := range mops {
 			if oi == len(mops)-1 && c.has("failAtLast") {
 				// arm the writer fault relative to the first Write of the last call
@@ -99,8 +102,12 @@ func init() {
 				if err := decode(op.Data, &d); err != nil {
 					panic(err)
 				}
+				if op.Reuse && lastAF != nil {
+					d.AdaptationField = lastAF
+				}
 				payloadBefore := append([]byte{}, d.PES.Data...)
 				call("data", func() (int, error) { return m.WriteData(&d) })
+				lastAF = d.AdaptationField
 				if !bytes.Equal(payloadBefore, d.PES.Data) {
 					payloadOK = false
 				}
